@@ -58,9 +58,38 @@ class Harness(cm.BaseB):
         Cs = range(1, 49) if tier != "quick" else [1, 2, 3, 7, 12, 24, 48]
         for R in Rs:
             out.append({"k": "fam", "R": R, "Cs": [C for C in Cs if R * C > 14]})
+        # sequences: the same process encodes a selection on one geometry and then on a different geometry with
+        # the same number of wells (hidden state between calls must not leak)
+        for n in list(range(2, 15)) + [16, 24, 96, 384]:
+            out.append({"k": "pairs", "n": n})
         return out
 
+    def run_pairs(self, chunk, st):
+        n = chunk["n"]
+        geos = [(R, n // R) for R in range(1, 27) if n % R == 0 and n // R <= 48]
+        for (R1, C1) in geos:
+            for (R2, C2) in geos:
+                if (R1, C1) == (R2, C2):
+                    continue
+                idxs = [[], list(range(n)), [0], [n - 1], [1, n // 2]] + [[i] for i in range(1, min(n, 8))]
+                for idx in idxs:
+                    a1 = [(r, c) for c in range(C1) for r in range(R1)]
+                    a2 = [(r, c) for c in range(C2) for r in range(R2)]
+                    # same positions in row-major memory order (what a careless cache key would see)
+                    sel1 = {divmod(i, C1) for i in idx}
+                    sel2 = {divmod(i, C2) for i in idx}
+                    case = {"seq": [[R1, C1, sorted(sel1)], [R2, C2, sorted(sel2)]]}
+                    cm.clear_caches()
+                    self.check(R1, C1, sel1, False)
+                    outcome, key, viol, s_ = self.check(R2, C2, sel2, False)
+                    st.case("pair", case if not idx else None, f"pair{case}")
+                    for v in viol:
+                        st.violation(v[0] + "/order-dependent", case, f"after encoding the same mask on {R1}x{C1}: {v[1]}")
+
     def run_chunk(self, chunk, st):
+        cm.clear_caches()
+        if chunk["k"] == "pairs":
+            return self.run_pairs(chunk, st)
         if chunk["k"] == "all":
             R, C = chunk["R"], chunk["C"]
             n = R * C
@@ -89,6 +118,11 @@ class Harness(cm.BaseB):
                     st.violation(v[0], {"R": R, "C": C, "sel": sorted(sel)}, v[1])
 
     def replay(self, case):
+        cm.clear_caches()
+        if "seq" in case:
+            (R1, C1, s1), (R2, C2, s2) = case["seq"]
+            self.check(R1, C1, {tuple(x) for x in s1}, False)
+            return [[c + "/order-dependent", d] for c, d in self.check(R2, C2, {tuple(x) for x in s2}, False)[2]]
         if case["sel"] == "ALL":
             R, C = case["R"], case["C"]
             n = R * C
